@@ -1,4 +1,5 @@
 import MoPepGen.Driver.C10
+import MoPepGen.Driver.C17
 import MoPepGen.Driver.C15
 import MoPepGen.Driver.C16
 import MoPepGen.Driver.C14
@@ -29,6 +30,7 @@ def dispatch (st : St) (line : String) : St × String :=
   | "C14" :: args => (st, MoPepGen.Driver.C14.handle args)
   | "C16" :: args => (st, MoPepGen.Driver.C16.handle args)
   | "C15" :: args => (st, MoPepGen.Driver.C15.handle args)
+  | "C17" :: args => (st, MoPepGen.Driver.C17.handle args)
   | _ => (st, "bad-stream")
 
 partial def loop (h : IO.FS.Stream) (out : IO.FS.Stream) (st : St) : IO Unit := do
